@@ -266,16 +266,21 @@ def state_key(psi, sh):
 
 # ------------------------------------------------------------------------------------------------ operators
 
+_OP_INFO = {}
+
+
 def op_info(site):
     """name -> (dense matrix, unitary?, needs JW?) for every operator of the site."""
-    out = {}
-    for name in sorted(site.opnames):
-        M = site.get_op(name).to_ndarray()
-        out[name] = (M, np.allclose(M @ M.conj().T, np.eye(len(M)), atol=1e-12), site.op_needs_JW(name))
-    return out
+    if id(site) not in _OP_INFO:
+        out = {}
+        for name in sorted(site.opnames):
+            M = site.get_op(name).to_ndarray()
+            out[name] = (M, np.allclose(M @ M.conj().T, np.eye(len(M)), atol=1e-12), site.op_needs_JW(name))
+        _OP_INFO[id(site)] = (site, out)
+    return _OP_INFO[id(site)][1]
 
 
-def pick(site, unitary, diag=None):
+def pick(site, unitary):
     """First (sorted) bosonic operator name that is (non-)unitary and invertible, not proportional to Id."""
     for name, (M, uni, jw) in op_info(site).items():
         if jw or uni != unitary or np.allclose(M, M[0, 0] * np.eye(len(M))):
@@ -386,13 +391,14 @@ class Leaf(Exception):
     pass
 
 
-def reanchor(psi2, sh2, what):
+def reanchor(psi2, sh2, what, normalised=True):
     """After a genuine truncation the exact result is unknown: continue from the state actually produced.
 
-    (A truncated infinite MPS is neither normalised nor canonical any more: it is not explored further.)"""
+    (A truncated infinite MPS is neither normalised nor canonical any more: it is not explored further; the same
+    holds for group_split, which documents nothing about the normalisation after a truncation.)"""
     T = psi_T(psi2, what)
     psi2.test_sanity()
-    if sh2.bc == 'infinite':
+    if sh2.bc == 'infinite' or not (normalised or abs(np.linalg.norm(T) - 1) < TOL[sh2.bc]):
         raise Leaf('truncated')
     sh2.T = T
     if abs(np.linalg.norm(T) - 1) > TOL[sh2.bc]:
@@ -432,9 +438,9 @@ def step(psi, sh, act, ctx):
     def destroyed(call):
         try:
             call()
-        except Exception:  # noqa: BLE001  (op|psi> = 0 is outside the domain; any outcome accepted)
-            pass
-        return None, None, 'destroyed'
+        except Exception:  # noqa: BLE001  (outside the domain: op|psi> = 0, or an infinite state without a clear
+            pass           # gap of the transfer matrix; any outcome is accepted)
+        return None, None, 'destroyed-or-degenerate'
 
     if kind == 'op':
         _, i, opname, unitary, renorm = act
@@ -456,9 +462,11 @@ def step(psi, sh, act, ctx):
         m = 2 if kind == 'op2' else 3
         op, mat = n_site_op([psi.sites[(i + k) % psi.L] for k in range(m)], okind, seed)
         apply_on(sh2, i, mat, m)
-        finish(sh2, renorm)
+        call = lambda: psi2.apply_local_op(i, op, unitary=unitary, renormalize=renorm, understood_infinite=True)  # noqa: E731
+        if finish(sh2, renorm):
+            return destroyed(call)
         canonical = None if (unitary or (unitary is None and okind == 'U')) else True
-        psi2.apply_local_op(i, op, unitary=unitary, renormalize=renorm, understood_infinite=True)
+        call()
     elif kind == 'prod':
         _, names, unitary, renorm = act
         sh2.T = D.apply_full(sh.T, D.kron_all([op_info(s)[names[k % len(names)]][0] for k, s in enumerate(sh.elem)]))
@@ -568,7 +576,7 @@ def step(psi, sh, act, ctx):
         sh2.blocks = [c for b in sh.blocks for c in b]
         err = psi2.group_split(None if act[1] is None else {'chi_max': act[1]})
         if trunc_check(what, [sh2], psi2, err):
-            reanchor(psi2, sh2, what)
+            reanchor(psi2, sh2, what, normalised=False)
             canonical = False
     elif kind == 'chi':
         extra = chi_pattern(psi, act[1])
@@ -701,8 +709,7 @@ def chi_pattern(psi, pid):
         extra = []
         for b in range(nb):
             leg = psi._B[b].get_leg('vL') if b < psi.L else psi._B[-1].get_leg('vR').conj()
-            q = leg.to_qflat()[[0, -1]] * leg.qconj
-            extra.append(npc.LegCharge.from_qflat(psi.chinfo, q * (1 if leg.qconj == 1 else 1), qconj=1) if b % 2 else None)
+            extra.append(npc.LegCharge.from_qflat(psi.chinfo, leg.to_qflat()[[0, -1]], qconj=1) if b % 2 else None)
     if psi.finite:
         extra[0] = extra[-1] = 0 if pid != 2 else None
     return extra
@@ -710,7 +717,7 @@ def chi_pattern(psi, pid):
 
 # ------------------------------------------------------------------------------------------------ alphabet
 
-def alphabet(psi, sh, ctx, full, tier):
+def alphabet(psi, sh, ctx, full):
     """Transformations offered in a state (inside the documented domain of each method)."""
     L, bc = sh.L, sh.bc
     fin = bc != 'infinite'
@@ -828,7 +835,7 @@ def alphabet(psi, sh, ctx, full, tier):
     acts += [('form', f) for f in forms]
     if full:
         acts.append(('copy',))
-    return acts
+    return list(dict.fromkeys(acts))
 
 
 # ------------------------------------------------------------------------------------------------ explorer
@@ -847,13 +854,12 @@ def explore(start, seed, depth):
     except Viol as v:
         record('start:' + v.key, v.what, [])
         return res
-    tier = start[3]
     seen = {state_key(psi, sh)}
     frontier = [(psi, sh, [])]
     for d in range(depth):
         nxt = []
         for psi, sh, hist in frontier:
-            for act in alphabet(psi, sh, ctx, d == 0, tier):
+            for act in alphabet(psi, sh, ctx, d == 0):
                 res['transitions'] += 1
                 h2 = hist + [act]
                 out = run_step(psi, sh, act, ctx, record, h2)
